@@ -514,7 +514,7 @@ struct Init {
                 // index 0 is always the small template
                 tpl[1] = {{NC_INT, {10}}, {NC_BYTE, {P31 - 5}}, {NC_BYTE, {P31 - 4}}, {NC_BYTE, {P31 - 3}}, {NC_SHORT, {P30 - 2}}, {NC_SHORT, {P30 - 1}}, {NC_INT, {P29}}, {NC_DOUBLE, {P28 - 1}}, {NC_INT, {3, P29}}};
                 tpl[2] = {{NC_INT, {10}}, {NC_BYTE, {2, P31 - 2}}, {NC_BYTE, {2, P31 - 1}}, {NC_SHORT, {P31 - 2}}, {NC_SHORT, {P31 - 1}}, {NC_INT, {P30 - 1}}, {NC_INT, {P30}}, {NC_DOUBLE, {P29 - 1}}, {NC_BYTE, {P31 - 1}}, {NC_DOUBLE, {3, P29}}};
-                tpl[5] = {{NC_INT, {10}}, {NC_INT, {P30}}, {NC_BYTE, {P32 + 7}}, {NC_DOUBLE, {P29 + 1}}, {NC_INT64, {(1LL << 60) - 1}}, {NC_DOUBLE, {1LL << 60}}, {NC_BYTE, {0x7fffffffffffffffLL - 3}}, {NC_BYTE, {0x7fffffffffffffffLL - 2}}, {NC_BYTE, {P32, P32}}, {NC_USHORT, {3, P31}}};
+                tpl[5] = {{NC_INT, {10}}, {NC_INT, {P30}}, {NC_BYTE, {P32 + 7}}, {NC_DOUBLE, {P29 + 1}}, {NC_INT64, {(1LL << 60) - 1}}, {NC_DOUBLE, {1LL << 60}}, {NC_BYTE, {0x7fffffffffffffffLL - 3}}, {NC_BYTE, {0x7fffffffffffffffLL - 2}}, {NC_BYTE, {P32, P32}}, {NC_USHORT, {3, P31}}, {NC_BYTE, {3, 2, P31 + 16}}, {NC_SHORT, {P31 + 8}}};   // the last two: three dimensions with an inner length > 2^31-1 (row pitch of the two outer ones), and a > 2^31-1 inner dimension of a multi-byte type that becomes a 2-D record variable
                 for (int f : {1, 2, 5}) {
                     int nt = (int)tpl[f].size(); std::vector<std::pair<int, bool>> alpha; for (int t = 0; t < nt; t++) { alpha.push_back({t, false}); alpha.push_back({t, true}); }
                     for (size_t a = 0; a < alpha.size(); a++) { cases.push_back({f, {alpha[a]}, 0});
